@@ -6,12 +6,17 @@ from common import Report
 from driver import Driver
 
 CLIF_QUICK_PAIRS = {(0, 1), (3, 4), (2, 2), (10, 4), (1, 10), (9, 5)}
+CLIF_THOROUGH_PAIRS = CLIF_QUICK_PAIRS | {(1, 0), (0, 0), (9, 9), (5, 10), (10, 0), (10, 9), (4, 3), (6, 7), (7, 6), (8, 1), (1, 8), (2, 3), (3, 2), (0, 9), (9, 0), (5, 5), (0, 10), (7, 2)}
 
 
 def items_for(tier, kinds=None):
     its = clifcheck.f1_items(tier, kinds)
     if tier == 'quick':      # the translation does not depend on machine register classes: fewer register pairs than for the x86 JIT
         its = [it for it in its if (it['inst'][1], it['inst'][2]) in CLIF_QUICK_PAIRS or (it['inst'][2] == 0 and it['inst'][1] in (0, 3, 2, 9, 10)) or spec.classify(it['inst'][0])[0] in ('call', 'ja', 'ldabs')]
+    else:
+        # thorough: the CLIF translation is uniform in the register numbers (registers are SSA variables indexed by number), so all 110 pairs x all
+        # classes (37,767 programs, > 1 h) buys nothing over a 24-pair cover of {same register, r0, r10 as source / store base, adjacent, far apart}
+        its = [it for it in its if (it['inst'][1], it['inst'][2]) in CLIF_THOROUGH_PAIRS or (it['inst'][2] == 0 and it['inst'][1] in (0, 2, 3, 9, 10)) or spec.classify(it['inst'][0])[0] in ('call', 'ja', 'ldabs')]
     return its
 
 
